@@ -670,6 +670,9 @@ func aggregate(id, tier string, seed int64, pc *PropCfg, bo *buildOut, results [
 				// resource exhaustion inside a decode step is C02's concern
 				tot.Inconclusive["worker-died-resource-exhaustion (C02's concern)"]++
 				tot.Runs++ // the run that died was executed
+				if os.Getenv("VERIF_DEBUG_DEATHS") != "" {
+					fmt.Fprintf(os.Stderr, "verifctl: DEATH: %s\n", msg)
+				}
 			} else {
 				infra = append(infra, msg)
 			}
